@@ -60,6 +60,8 @@ mcview == <<pc, loc, guards, hint, rlist, nstate, budget, flushed, alive, bad, m
 G0 == [ptr |-> 0, hp |-> 0]
 L0 == [g |-> 0, h |-> 0, c |-> 0, p1 |-> 0, p2 |-> 0, op |-> "none", fresh |-> 0, u |-> 0, k |-> 0, prot |-> {}, exp |-> 0, after |-> "none", adopted |-> {}]
 
+\* operations per thread (a definition the configurations may override: asymmetric programs keep weak-memory runs small)
+OpsOf(t) == MaxOps
 Init == /\ MemInit
         /\ pc = [t \in Threads |-> "idle"]
         /\ loc = [t \in Threads |-> L0]
@@ -67,7 +69,7 @@ Init == /\ MemInit
         /\ hint = [t \in Threads |-> 1]
         /\ rlist = [t \in Threads |-> <<>>]
         /\ nstate = [n \in Nodes |-> IF n <= NCells THEN "live" ELSE "free"]
-        /\ budget = [t \in Threads |-> MaxOps]
+        /\ budget = [t \in Threads |-> OpsOf(t)]
         /\ flushed = [t \in Threads |-> FALSE]
         /\ alive = [t \in Threads |-> TRUE]
         /\ bad = "ok"
